@@ -33,9 +33,13 @@ def run(tier, seed):
                  'key tables (signatures x call forms incl. structured values x session-stable keymaps) computed in separate interpreters with different PYTHONHASHSEED and compared byte for byte; '
                  'plus a run with the builtin hash replaced by a raiser; plus write/read sessions over file/dir/sqlite archives through every decorator; '
                  'non-trivial = distinct (keymap, signature, call) rows compared across seeds, plus end-to-end calls',
-                 assumptions=['seed set {0,1,2,1+VERIF_SEED}: a stated finite bound; independence of the seed is shown by the no-hash run',
+                 assumptions=['seed set {0,1,2,1+VERIF_SEED} (thorough: also 3..7 and 2**32-1): a stated finite bound; independence of the seed is shown by the no-hash run',
                               'values whose repr/pickle is itself seed dependent (sets of strings) are excluded, as the statement allows'])
     seeds = [0, 1, 2, 1 + (seed % (2 ** 32 - 2))]
+    if tier == 'thorough':
+        # (a frozenset / dict whose order depends on the string hashes may happen to come out alike for two seeds:
+        # more seeds, and 'random', make an accidental agreement on every row unlikely)
+        seeds += [3, 4, 5, 6, 7, 4294967295]
     seeds = sorted(set(seeds))
     base = pool.fresh_dir('c17')
     tasks = [('keys', s, ['keys', tier, 'hash'], base) for s in seeds]
@@ -80,7 +84,7 @@ def run(tier, seed):
     # end to end: session A writes, session B (other seed, other spellings) reads
     pairs = [(seeds[0], seeds[1]), (seeds[-1], seeds[0])]
     if tier == 'thorough':
-        pairs.append((seeds[1], seeds[2 % len(seeds)]))
+        pairs += [(seeds[1], seeds[2 % len(seeds)]), (seeds[3 % len(seeds)], seeds[-1]), (seeds[-2], seeds[1])]
     n = 0
     for (sa, sb) in pairs:
         root = pool.fresh_dir('e2e')
